@@ -33,6 +33,7 @@ func watch(ch chan []tls.Certificate, refresh time.Duration, path string, loadFn
 		certs, err := loadCertificates(next)
 		if err != nil {
 			log.Printf("[ERROR] cert: Cannot make certificates: %s", err)
+			time.Sleep(refresh)
 			continue
 		}
 
